@@ -292,7 +292,7 @@ def _enter_inline(alt, it):
     return (pp.join(base, it["name"]), None, True)
 
 
-def resolve(asts, files, dirs=(), root=ROOT):
+def resolve(asts, files, dirs=(), root=ROOT, want_cands=True):
     fs = Fs(files, dirs)
     R = Resolution()
     seen = set()
@@ -332,7 +332,8 @@ def resolve(asts, files, dirs=(), root=ROOT):
         for it in items:
             t = it["t"]
             if t == "ext":
-                cands_for(it, F, modname, alts, chain)
+                if want_cands:
+                    cands_for(it, F, modname, alts, chain)
                 dcc = bool(dc or it.get("skip"))
                 r = _resolve_ext(fs, alts, it)
                 if r[0] == "err":
@@ -361,9 +362,9 @@ def resolve(asts, files, dirs=(), root=ROOT):
     return R
 
 
-def expectation(asts, files, dirs, cfg, mode, root=ROOT):
+def expectation(asts, files, dirs, cfg, mode, root=ROOT, want_cands=True):
     """cfg: {'ignore': [...], 'fgf': bool}; mode: {'skip_children','stdin',...}"""
-    R = resolve(asts, files, dirs, root)
+    R = resolve(asts, files, dirs, root, want_cands)
     if R.unspec:
         return R, {"status": "unspecified", "why": R.unspec}
 
@@ -584,6 +585,8 @@ def build_tree(shape, devs):
                     roles[path] = "extra"
             continue
         for path, kind, fn in o["files"]:
+            if path.startswith(".."):
+                return {"dropped": "inapplicable"}  # #[path] would leave the tree
             if path in asts:
                 return {"dropped": "collision"}
             asts[path] = {"items": [], "fn": fn}
@@ -707,7 +710,7 @@ def build_cases(shape, devs, policy):
         # (root=dirA / dirB): a decoy never creates that directory
         if not had_stem_dir and any((c + "/").startswith(stem_dir + "/") for c in extra):
             return False
-        R = resolve(asts, base_files | set(extra), dirs)
+        R = resolve(asts, base_files | set(extra), dirs, want_cands=False)
         return R.key() == key0
 
     cands = sorted(c for c in R0.cands if c not in base_files)
@@ -738,7 +741,7 @@ def build_cases(shape, devs, policy):
         if toml:
             files["rustfmt.toml"] = toml
             r2["rustfmt.toml"] = "config"
-        _R, E = expectation(a2, set(a2), dirs, cfg, mode)
+        _R, E = expectation(a2, set(a2), dirs, cfg, mode, want_cands=False)
         if E["status"] != E0["status"] or sorted(E.get("formatted", [])) != sorted(E0.get("formatted", [])):
             return {"dropped": "generator_model_mismatch"}
         n_dec = len(decoys) + len(T["filler"]) + len(T["both_files"])
@@ -748,6 +751,7 @@ def build_cases(shape, devs, policy):
             "expect": E, "roles": r2, "fn_names": {p: a["fn"] for p, a in a2.items()},
             "features": T["features"], "nontrivial": nontrivial, "n_decoys": n_dec,
             "n_real": len(T["roles"]), "sample": vname == "all" and len(devs) >= 1,
+            "runs": ["files"] if vname.startswith("one:") else ["stdout", "files"],
         })
     return {"cases": cases}
 
@@ -834,7 +838,7 @@ def levels(tier):
     if tier == "quick":
         return [
             {"name": "L0", "k": 0, "shapes": QUICK_SHAPES, "policy": "full"},
-            {"name": "L1", "k": 1, "shapes": QUICK_SHAPES, "policy": "full-structural"},
+            {"name": "L1", "k": 1, "shapes": QUICK_SHAPES, "policy": "full-on-chains"},
             {"name": "L2-small", "k": 2, "shapes": [(0, 1), (0, 1, 0)], "policy": "all"},
         ]
     return [
@@ -857,6 +861,10 @@ def bounds(tier):
     }
 
 
+def _is_chain(shape):
+    return all(p == i for i, p in enumerate(shape))
+
+
 def _depth(shape):
     d = {0: 0}
     for i, p in enumerate(shape, 1):
@@ -864,22 +872,34 @@ def _depth(shape):
     return max(d.values())
 
 
-def enumerate_plans(tier, lvl, failing_singles, run=None):
+def enumerate_plans(tier, lvl, failing, run=None, shapes=None):
+    """failing: {shape tuple: [frozenset of deviation strings]} of plans that already failed.
+    A plan is pruned when a failing plan on the same shape or on a prefix shape (the same tree minus the
+    last declared nodes) uses a subset of its deviations: the smaller failing case is the report."""
     plans = []
-    for shape in lvl["shapes"]:
+    for shape in (shapes if shapes is not None else lvl["shapes"]):
         A = alphabet(shape, tier)
-        sid = "S" + ".".join(map(str, shape))
-        bad = failing_singles.get(sid, [])
+        bad = []
+        for s2, sets in failing.items():
+            if shape[:len(s2)] == s2:
+                bad += [(s2, b) for b in sets]
         for devs in itertools.combinations(A, lvl["k"]):
             if not compatible(devs):
                 continue
             ds = frozenset(dev_str(d) for d in devs)
-            if lvl["k"] >= 2 and any(b < ds for b in bad):
+            if any(b <= ds and (b != ds or s2 != shape) for s2, b in bad):
                 if run is not None:
-                    run.count("pruned_supersets_of_failing_singles")
+                    run.count("pruned_supersets_of_failing_plans")
                 continue
             pol = lvl["policy"]
             if pol == "full-structural":
                 pol = "full" if all(d[0] in STRUCTURAL for d in devs) else "all"
+            elif pol == "full-on-chains":
+                pol = "full" if all(d[0] in STRUCTURAL for d in devs) and _is_chain(shape) else "all"
+            if pol == "all" and lvl["k"] == 2:
+                # a fault on a declaration x the form of that same declaration: decoys are the point
+                kinds = {d[0]: d for d in devs}
+                if set(kinds) == {"form", "neg"} and kinds["form"][1] == kinds["neg"][1]:
+                    pol = "full"
             plans.append((shape, devs, pol))
     return plans
